@@ -161,6 +161,18 @@ def install():
 
     selectors.DefaultSelector = DefaultSelector
 
+    # ---- select.select ----
+    import select as _select_mod
+    _real["select"] = _select_mod.select
+
+    def routed_select(rlist, wlist, xlist, timeout=None):
+        if _sim() is not None and any(getattr(x, "is_sim", False) for x in list(rlist) + list(wlist) + list(xlist)):
+            _count("select.select")
+            return _net.sim_select(rlist, wlist, xlist, timeout)
+        return _real["select"](rlist, wlist, xlist, timeout) if timeout is not None else _real["select"](rlist, wlist, xlist)
+
+    _select_mod.select = routed_select
+
     # ---- socket ----
     _real["socket"] = socket.socket
     _real["getaddrinfo"] = socket.getaddrinfo
